@@ -22,6 +22,7 @@ import (
 	"io"
 
 	"github.com/drone/envsubst/v2"
+	"github.com/knadh/koanf/maps"
 	"gopkg.in/yaml.v3"
 
 	"github.com/dadrus/heimdall/internal/heimdall"
@@ -80,6 +81,10 @@ func parseYAML(reader io.Reader, envUsageEnabled bool) (*RuleSet, error) {
 
 		return nil, err
 	}
+
+	// mappings with non string keys (e.g. "1: foo") are decoded by the yaml library into map[any]any,
+	// which the config decoder cannot deal with
+	maps.IntfaceKeysToStrings(rawConfig)
 
 	if err := DecodeConfig(rawConfig, &ruleSet); err != nil {
 		return nil, err
